@@ -121,6 +121,9 @@ struct Adv {
     actions: BTreeMap<String, u64>,
     held: Vec<(u64, usize, usize, Bytes)>,
     pool: Vec<Digest>,
+    tcs: BTreeMap<u64, TC>,
+    honest_round: HashMap<usize, u64>,
+    wild: HashSet<(usize, u64)>,
 }
 
 impl Adv {
@@ -180,6 +183,11 @@ impl Adv {
         let evs = evlog::tail(self.cursor);
         self.cursor += evs.len();
         for ev in evs {
+            if let Kind::Core(consensus::verif::Event::Round { node, to, .. }) = &ev.kind {
+                if let Some(i) = self.topo.index_of(node) {
+                    self.honest_round.insert(i, *to);
+                }
+            }
             if let Kind::FrameOut { frame, .. } = &ev.kind {
                 if frame.dir != Dir::ToServer || frame.route.svc != SVC_CONSENSUS {
                     continue;
@@ -188,7 +196,13 @@ impl Adv {
                     self.frames.push((frame.route.src, frame.data.clone()));
                 }
                 match frame.cons() {
+                    Some(CMsg::TC(tc)) => {
+                        self.tcs.entry(tc.round).or_insert_with(|| tc.clone());
+                    }
                     Some(CMsg::Propose(b)) => {
+                        if let Some(tc) = &b.tc {
+                            self.tcs.entry(tc.round).or_insert_with(|| tc.clone());
+                        }
                         self.blocks.entry(b.digest()).or_insert_with(|| b.clone());
                         if !b.qc.votes.is_empty() {
                             self.qcs.entry(b.qc.round).or_insert_with(|| b.qc.clone());
@@ -304,6 +318,7 @@ impl Adv {
                     w += self.topo.stakes[*a] as u64;
                 }
                 let tc = TC { round: r, votes };
+                self.tcs.entry(r).or_insert_with(|| tc.clone());
                 self.proposed.insert((y, r + 1));
                 // the stalest QC that the voting rule still allows, or (stale-QC attack) an older one
                 let stale = self.rng.gen_bool(self.plan.p_stale);
@@ -313,6 +328,37 @@ impl Adv {
                     self.act("stale_qc_proposal_with_tc");
                 }
                 self.propose(y, r + 1, qc, Some(tc), now_ms).await;
+            }
+        }
+        // 3c. "wild" proposals for the round most honest nodes are in, when a Byzantine authority leads
+        // it: an old QC justified by a replayed old TC, by a TC of the wrong round, or by nothing.
+        // Correct nodes vote for none of them (voting rule 2); a node that does can be led onto a fork.
+        if !self.honest_round.is_empty() {
+            let mut counts: HashMap<u64, usize> = HashMap::new();
+            for r in self.honest_round.values() {
+                *counts.entry(*r).or_default() += 1;
+            }
+            let target = counts.into_iter().max_by_key(|(r, c)| (*c, *r)).map(|x| x.0).unwrap_or(0);
+            let y = self.topo.leader(target);
+            if target > 3 && self.byz.contains(&y) && !self.wild.contains(&(y, target)) && self.rng.gen_bool(self.plan.p_stale.min(0.5)) {
+                self.wild.insert((y, target));
+                let old_qc = {
+                    let c: Vec<QC> = self.qcs.range(..target.saturating_sub(1)).map(|x| x.1.clone()).collect();
+                    c.choose(&mut self.rng).cloned().unwrap_or_else(QC::genesis)
+                };
+                let old_tc = {
+                    let c: Vec<TC> = self.tcs.range(..target.saturating_sub(1)).map(|x| x.1.clone()).filter(|t| t.votes.iter().map(|v| v.2).max().unwrap_or(0) <= old_qc.round).collect();
+                    c.choose(&mut self.rng).cloned()
+                };
+                let kind = if old_tc.is_some() { "wild_proposal_old_qc_replayed_old_tc" } else { "wild_proposal_old_qc_no_tc" };
+                self.act(kind);
+                let pl: Vec<Digest> = self.pool.iter().take(self.rng.gen_range(0, 2)).cloned().collect();
+                let b = self.sign_block(y, target, old_qc, old_tc, pl);
+                self.blocks.entry(b.digest()).or_insert_with(|| b.clone());
+                let data = Bytes::from(bincode::serialize(&ConsensusMessage::Propose(b)).unwrap());
+                for h in self.honest.clone() {
+                    self.send(y, h, data.clone()).await;
+                }
             }
         }
         // 4. replay
@@ -454,6 +500,9 @@ pub fn execute(plan: &Plan, seed: u64) -> (Vec<evlog::Ev>, Arc<Topo>, Vec<usize>
             actions: BTreeMap::new(),
             held: Vec::new(),
             pool: pool.clone(),
+            tcs: BTreeMap::new(),
+            honest_round: HashMap::new(),
+            wild: HashSet::new(),
         };
         // honest groups for the split intervals
         let mut groups = honest.clone();
